@@ -1,4 +1,4 @@
-"""C03 - scans are exact, ordered and gapless: ONLY the clause 'never an event of another stream / key' is decided (R3.1-R3.3)."""
+"""C03 - scans are exact, ordered and gapless: the clause 'never an event of another stream / key' (R3.1-R3.3) and three structural conditions of the scan cursor (R3.4-R3.6)."""
 from ..facts import Program, Inconclusive, op_place
 from ..flow import Ev, walk, show, strip, resolve_upvars
 from ..gate import comparisons, switch_on, edge_dominates, Classifier
@@ -32,7 +32,7 @@ def run(chk, facts_dir, tier):
                      "stored in the slot and the key asked for")
     chk.not_decided += ["exactness, order and gaplessness of scans: offset-index arithmetic (position - min version), block-cache boundaries, segment hand-over (e.g. seeded/C15b) "
                         "are arithmetic on runtime layouts and are NOT decided by any static rule here",
-                        "reverse scans, batch-size independence, equality before/after reopen"]
+                        "reverse scans beyond the start index (R3.6), batch-size independence, equality before/after reopen"]
 
     # ---------------- R3.1
     c04.stream_filter_applied(chk, prog, "R3.1")
